@@ -41,10 +41,15 @@ def translate_query(lambda_src: str) -> Dict[str, Any]:
 
     d = Path(tempfile.mkdtemp(prefix="c13_"))
     try:
-        q = _dataset()
-        for m in METADATA:
-            q = q.MetaData(m)
-        a = q.Select(lambda_src).value()
+        try:
+            q = _dataset()
+            for m in METADATA:
+                q = q.MetaData(m)
+            a = q.Select(lambda_src).value()
+        except Exception as e:
+            # raised by func_adl's own front end (its type follower rejects e.g. `True if c else 2` on a typed
+            # stream) before /repo's code sees the query: not a statement about the translator
+            return {"frontend": type(e).__name__, "msg": str(e)[:300]}
         exe = atlas_xaod_executor()
         a2 = exe.apply_ast_transformations(a)
         exe.write_cpp_files(a2, d)
@@ -77,7 +82,7 @@ class Unreadable(Exception):
     pass
 
 
-def read_pieces(gen: Dict[str, str], form: Dict[str, Any], n_counts: int) -> Dict[str, Any]:
+def read_pieces(gen: Dict[str, str], form: Dict[str, Any], banks: List[str]) -> Dict[str, Any]:
     """-> {"ty": column type, "vector": bool, "lines": canonical kept lines, "fill": canonical fill rhs, "body": raw body
     lines, "col_decl": header line}.  Raises Unreadable when the text has not the expected shape."""
     body = execute_body(gen["cxx"])
@@ -98,20 +103,21 @@ def read_pieces(gen: Dict[str, str], form: Dict[str, Any], n_counts: int) -> Dic
             n_it += 1
         m = EI_DECL.match(l)
         if m and m.group(1) not in ren:
-            ren[m.group(1)] = f"ei{n_ei}"
+            ren[m.group(1)] = "ei0"  # every fetch of the singleton "EI" denotes the same object
             n_ei += 1
         m = SCALAR_DECL.match(l)
         if m:
             decls.append((m.group(1), m.group(2), m.group(3)))
     # count leaves: `int X (0);` whose only update is `X = (X+1);`, in order of declaration
+    n_counts = len(banks)
     counts = []
     for ty, name, init in decls:
         if ty == "int" and init == "0" and f"{name} = ({name}+1);" in body and len(counts) < n_counts:
             counts.append(name)
     if len(counts) != n_counts:
         raise Unreadable(f"expected {n_counts} counting loops, found {len(counts)}")
-    for k, name in enumerate(counts):
-        ren[name] = f"cnt{k}"
+    for bank, name in zip(banks, counts):  # k-th counting loop (evaluation order) = k-th Count() of the source
+        ren[name] = f"cnt{list(X.CNT_SLOTS).index(bank)}"
     others = [(ty, name, init) for ty, name, init in decls if name not in counts]
     accs = [d for d in others if d[2] is not None]
     ifs = [d for d in others if d[2] is None]
@@ -210,10 +216,12 @@ def run(form: Dict[str, Any], level: str) -> Dict[str, Any]:
     """Translate the form's query with the real code. -> {"err":cls} | {"unreadable":why, …} | pieces"""
     q = X.form_src(form, level)
     gen = translate_query(q)
+    if "frontend" in gen:
+        return {"frontend": gen["frontend"], "msg": gen["msg"], "query": q}
     if "err" in gen:
         return {"err": gen["err"], "msg": gen["msg"], "query": q}
     try:
-        p = read_pieces(gen, form, len(X.banks_of(form)))
+        p = read_pieces(gen, form, X.banks_of(form))
         p["spec"] = impl_for_spec(p, form)
     except Unreadable as e:
         return {"unreadable": str(e), "query": q, "body": execute_body(gen["cxx"]), "gen": gen}
